@@ -12,6 +12,6 @@ git -C /repo apply "$PWD/$d/patch.diff" || { echo "patch does not apply"; exit 2
 trap 'git -C /repo checkout -- . ; git -C /repo clean -fdq -- . 2>/dev/null' EXIT
 for c in $checks; do
   echo "=== $d vs $c"
-  ${TIER_TIMEOUT:+timeout $TIER_TIMEOUT} ./vcheck $c ${TIER:-quick} 2>&1 | grep -E "^VIOLATION|signature=|^C[0-9]+ (quick|thorough):|HARNESS|^KNOWN" | cut -c1-300 | head -12
+  ${TIER_TIMEOUT:+timeout $TIER_TIMEOUT} ./vcheck $c ${TIER:-quick} 2>&1 | grep -E "^VIOLATION|signature=|^C[0-9]+ (quick|thorough):|HARNESS" | cut -c1-300 | head -12
   echo "exit=${PIPESTATUS[0]}"
 done
